@@ -50,13 +50,18 @@ impl CleartextSignedMessage {
         key_pw: &Password,
     ) -> Result<Self>
 where {
-        let mut bytes = text.as_bytes();
+        let csf_encoded_text = dash_escape(text);
+
+        // The signature is made over the text in the form that `signed_text()` (and thus every
+        // verifier) reconstructs: trailing spaces and tabs of each line removed, CR+LF line endings.
+        let unescaped = dash_unescape_and_trim(&csf_encoded_text);
+        let mut bytes = unescaped.as_bytes();
         let signature_text = NormalizedReader::new(&mut bytes, LineBreak::Crlf);
         let hash = config.hash_alg;
         let signature = config.sign(key, key_pw, signature_text)?;
 
         Ok(Self {
-            csf_encoded_text: dash_escape(text),
+            csf_encoded_text,
             hashes: vec![hash],
             signatures: vec![signature],
         })
@@ -94,7 +99,11 @@ where {
     where
         F: FnOnce(&str) -> Result<Vec<Signature>>,
     {
-        let signature_text = normalize_lines(text, LineBreak::Crlf);
+        let csf_encoded_text = dash_escape(text);
+
+        // signed form: trailing spaces and tabs of each line removed, CR+LF line endings
+        let unescaped = dash_unescape_and_trim(&csf_encoded_text);
+        let signature_text = normalize_lines(&unescaped, LineBreak::Crlf);
 
         let raw_signatures = signer(&signature_text[..])?;
         let mut hashes = HashSet::new();
@@ -109,7 +118,7 @@ where {
         }
 
         Ok(Self {
-            csf_encoded_text: dash_escape(text),
+            csf_encoded_text,
             hashes: hashes.into_iter().collect(),
             signatures,
         })
